@@ -11,3 +11,5 @@ check("C10", "harness/c10_specifiers.cxx", workers=(8, 16), wall=(15, 180),
       title="specifier and qualifier sets are a Boolean algebra with exact decomposition")
 check("C13", "harness/c13_constants.cxx", workers=(2, 4), wall=(5, 30),
       title="Lexicon constants are distinct, correctly spelled, self-describing, process-wide")
+check("C03", "harness/c03_words.cxx", workers=(8, 16), wall=(20, 600),
+      title="words are interned; content preserved")
